@@ -63,6 +63,8 @@ type c15Sink struct {
 	next  error
 	calls int
 	last  []byte
+	keep  bool // concurrency cases: remember every payload, not just the last
+	all   [][]byte
 }
 
 func (s *c15Sink) Capabilities() consumer.Capabilities { return consumer.Capabilities{} }
@@ -72,6 +74,9 @@ func (s *c15Sink) got(b []byte) error {
 	defer s.mu.Unlock()
 	s.calls++
 	s.last = b
+	if s.keep {
+		s.all = append(s.all, b)
+	}
 	return s.next
 }
 
@@ -496,6 +501,7 @@ type c15Case struct {
 	shell bool
 	out   c15Outcome
 	auth  string // off good bad
+	conc  int    // > 0: a concurrency case with that many overlapping senders (monitor)
 	kind  string // raw only
 	extra string // raw only: method / content type / …
 }
@@ -612,6 +618,114 @@ func c15Gen(rnd interface{ IntN(int) int }) c15Case {
 	return c
 }
 
+// c15Conc: `k` real exporters (OTLP/HTTP proto+JSON with every compression, and gRPC) each send a series of distinct,
+// self-describing payloads of many items, all at the same time, to ONE receiver whose consumer accepts everything —
+// a sustained burst, so that requests overlap inside the receiver in every phase (read, decode, consume).
+// Monitor: every request is acknowledged (verdict success) and the multiset of payloads at the consumer is exactly the
+// multiset that was sent (no cross-talk between requests that overlap inside the receiver).
+func c15Conc(t *testing.T, out *vOut, r *c15Recv, exps map[c15ExpKey]*c15Exp, ci, k int, rnd interface{ IntN(int) int }) {
+	type job struct {
+		key  c15ExpKey
+		p    c15Payload
+		e    *c15Exp
+		want [][]byte
+		errs []error
+	}
+	series := 3 + rnd.IntN(3)
+	jobs := make([]*job, k)
+	for i := range jobs {
+		var key c15ExpKey
+		if i%4 == 3 {
+			key = c15ExpKey{tr: "grpc", enc: "-", comp: c15GrpcComps[rnd.IntN(len(c15GrpcComps))]}
+		} else {
+			key = c15ExpKey{tr: "http", enc: []string{"pb", "json", "json"}[rnd.IntN(3)], comp: c15HTTPComps[rnd.IntN(len(c15HTTPComps))]}
+		}
+		e, ok := exps[key]
+		if !ok {
+			e = c15MakeExporter(t, r, key)
+			exps[key] = e
+		}
+		// most senders carry big payloads of similar size (slow to read and to decode, esp. as JSON, so the receiver's
+		// handlers are preempted in the middle of decoding while others are reading); a few are small and fast
+		items := 100 + rnd.IntN(600)
+		if i%6 != 5 {
+			items = 4000 + rnd.IntN(4000)
+		}
+		jobs[i] = &job{key: key, e: e, p: c15MakePayload(c15Sigs[rnd.IntN(3)], items, false, fmt.Sprintf("conc-%d-%d", ci, i))}
+	}
+	r.sink.set(nil)
+	r.sink.mu.Lock()
+	r.sink.keep, r.sink.all = true, nil
+	r.sink.mu.Unlock()
+	start := make(chan struct{})
+	var wg sync.WaitGroup
+	for i, j := range jobs {
+		wg.Add(1)
+		go func(i int, j *job) {
+			defer wg.Done()
+			<-start
+			for n := 0; n < series; n++ {
+				// make this request's payload unique and self-describing, then remember exactly what is sent
+				tag := fmt.Sprintf("conc-%d-%d-%d", ci, i, n)
+				ctx, cancel := context.WithTimeout(context.Background(), 60*time.Second)
+				var err error
+				var want []byte
+				switch j.p.sig {
+				case "logs":
+					j.p.logs.ResourceLogs().At(0).Resource().Attributes().PutStr("c15.tag", tag)
+					want, _ = (&plog.ProtoMarshaler{}).MarshalLogs(j.p.logs)
+					err = j.e.logs.ConsumeLogs(ctx, j.p.logs)
+				case "traces":
+					j.p.tr.ResourceSpans().At(0).Resource().Attributes().PutStr("c15.tag", tag)
+					want, _ = (&ptrace.ProtoMarshaler{}).MarshalTraces(j.p.tr)
+					err = j.e.traces.ConsumeTraces(ctx, j.p.tr)
+				default:
+					j.p.m.ResourceMetrics().At(0).Resource().Attributes().PutStr("c15.tag", tag)
+					want, _ = (&pmetric.ProtoMarshaler{}).MarshalMetrics(j.p.m)
+					err = j.e.metrics.ConsumeMetrics(ctx, j.p.m)
+				}
+				cancel()
+				j.want = append(j.want, want)
+				j.errs = append(j.errs, err)
+			}
+		}(i, j)
+	}
+	close(start)
+	wg.Wait()
+	r.sink.mu.Lock()
+	got := r.sink.all
+	r.sink.keep, r.sink.all = false, nil
+	r.sink.mu.Unlock()
+	total := k * series
+	out.Linef("op conc k=%d", total)
+	acked := 0
+	want := map[string]int{}
+	for i, j := range jobs {
+		for n, err := range j.errs {
+			if err == nil {
+				acked++
+			} else {
+				out.Linef("viol sig=C15/concurrency/well-formed-request-not-acknowledged sender=%d request=%d tr=%s enc=%s comp=%s verdict=%s", i, n, j.key.tr, j.key.enc, j.key.comp, c15Verdict(err))
+			}
+		}
+		for _, w := range j.want {
+			want[string(w)]++
+		}
+	}
+	matched := 0
+	for _, g := range got {
+		if want[string(g)] > 0 {
+			want[string(g)]--
+			matched++
+		} else {
+			out.Linef("viol sig=C15/concurrency/payload-at-consumer-is-not-one-that-was-sent got=%d bytes", len(g))
+		}
+	}
+	out.Linef("obs conc sent=%d acked=%d delivered=%d matched=%d", total, acked, len(got), matched)
+	out.Linef("stat conc_cases 1")
+	out.Linef("stat conc_requests %d", total)
+}
+
 func TestVerifC15(t *testing.T) {
 	out := vOpen(t)
 	defer out.Close()
@@ -620,12 +734,18 @@ func TestVerifC15(t *testing.T) {
 	authd := c15StartReceiver(t, true)
 	exps := map[c15ExpKey]*c15Exp{}
 	corpus := append(c15Corpus(), c15BigCorpus()...)
+	// concurrency corpus: overlapping senders inside one receiver
+	for _, k := range []int{8, 16, 24, 12} {
+		corpus = append(corpus, c15Case{conc: k, auth: "off"})
+	}
 	n := vN(600)
 	for _, ci := range vCases(n) {
 		rnd := vRand(ci)
 		var c c15Case
 		if ci < len(corpus) {
 			c = corpus[ci]
+		} else if rnd.IntN(250) == 0 {
+			c = c15Case{conc: 8 + rnd.IntN(17), auth: "off"}
 		} else {
 			c = c15Gen(rnd)
 		}
@@ -635,6 +755,13 @@ func TestVerifC15(t *testing.T) {
 			r = authd
 		}
 		good := c.auth == "good"
+		if c.conc > 0 {
+			c15Conc(t, out, open, exps, ci, c.conc, rnd)
+			out.Linef("nt")
+			out.Linef("end")
+			out.Flush()
+			continue
+		}
 		r.sink.set(c.out.err())
 		if c.raw {
 			c15Raw(out, r, c, good, rnd)
